@@ -107,9 +107,24 @@ func (w *wgen) simple() string {
 	case k < 38:
 		return "n=$((" + w.arith() + "))"
 	case k < 43:
-		return `printf '%s-%d\n' ` + w.val() + " " + fmt.Sprint(w.r.IntN(50))
-	case k < 48:
+		// (one quoted argument per conversion: `printf %d word` status is C24's finding)
+		return `printf '%s-%d\n' "` + w.pick([]string{"$a", "$b", "$c", "x", "ab c"}) + `" ` + fmt.Sprint(w.r.IntN(50))
+	case k < 45:
 		return w.pick(wvars) + "=$(echo " + w.val() + "; echo z)"
+	case k < 48:
+		// output that ends in SEVERAL newlines: all of them are stripped
+		switch w.r.IntN(5) {
+		case 0:
+			return w.pick(wvars) + "=$(echo " + w.val() + "; echo; echo); echo \"[$" + "a][$b][$c]\""
+		case 1:
+			return "echo \"[$(printf 'p\\n\\n\\n')]\" \"<$(echo q; echo)>\""
+		case 2:
+			return "c=$(printf '%s\\n\\n' " + w.val() + "); echo \"${#c}\""
+		case 3:
+			return "[[ $(printf 'x\\n\\n') == x ]] && echo same"
+		default:
+			return "for e in \"$(echo r; echo; echo)\" t; do echo \"<$e>\"; done"
+		}
 	case k < 52:
 		// (command substitution of something that can fail is left out: known finding
 		// errexit_inherited_by_command_substitution)
@@ -193,8 +208,18 @@ func (w *wgen) stmt(depth int) string {
 		w.inLoop--
 		return s
 	case k < 71:
-		// (C-style for loops are left out: known finding cstyle_for_stops_after_failing_body)
-		return w.simple()
+		// C-style for loops, with a last body command that succeeds (a failing one is the known finding
+		// cstyle_for_stops_after_failing_body); the loop variable is printed afterwards
+		w.inLoop++
+		w.nloop++
+		jv := fmt.Sprintf("j%d", w.nloop)
+		s := "for ((" + jv + "=0; " + jv + "<" + fmt.Sprint(2+w.r.IntN(4)) + "; " + jv + "++)); do\n"
+		if w.r.IntN(2) == 0 {
+			s += "((" + jv + "==" + fmt.Sprint(w.r.IntN(4)) + ")) && " + w.pick([]string{"break", "continue", "break 1"}) + "\n"
+		}
+		s += w.list(depth-1, 2) + "\n:\ndone; echo \"" + jv + "=$" + jv + "\""
+		w.inLoop--
+		return s
 	case k < 77:
 		return "case " + w.val() + " in\n  x*|7) " + w.stmtLine(depth-1) + ";;\n  [0-9]*) " + w.stmtLine(depth-1) + ";;\n  *) " + w.stmtLine(depth-1) + ";;\nesac"
 	case k < 83:
@@ -227,7 +252,52 @@ func (w *wgen) stmtLine(depth int) string {
 	return w.simpleNoNL()
 }
 
+// compoundErr: every kind of compound command ending in a failing && || list (or ! cmd), under errexit
+// and/or an ERR trap; no `exit` in these programs (known finding err_trap_fires_on_exit_builtin).
+func (w *wgen) compoundErr() string {
+	var sb strings.Builder
+	errTrap := true
+	switch w.r.IntN(3) {
+	case 0:
+		sb.WriteString("set -e\n")
+		errTrap = false
+	case 1:
+		sb.WriteString("trap 'echo err' ERR\n")
+	default:
+		sb.WriteString("set -e\ntrap 'echo err' ERR\n")
+	}
+	tails := []string{"false && true", "true && false || false", "! true", "[[ a == b ]] && echo no", "(( 0 )) && :"}
+	kinds := []string{
+		"case x in\n  y) echo no;;\n  x|*) %s;;\nesac",
+		"if true; then\n%s\nfi",
+		"if false; then :; else\n%s\nfi",
+		"for i in a b; do\n%s\ndone",
+		"k=0; while [ $k -lt 2 ]; do k=$((k+1))\n%s\ndone",
+		"k=0; until [ $k -ge 1 ]; do k=$((k+1))\n%s\ndone",
+		"{\n%s\n}",
+		"for ((j=0; j<2; j++)); do\n%s\n:\ndone",
+	}
+	n := 2 + w.r.IntN(3)
+	first := w.r.IntN(len(kinds))
+	body := ""
+	for i := 0; i < n; i++ {
+		k := (first + i*3) % len(kinds)
+		body += fmt.Sprintf(kinds[k], w.pick(tails)) + fmt.Sprintf("\necho here%d $?\n", k)
+	}
+	// (with an ERR trap the body stays at top level: known finding err_trap_inherited_by_functions)
+	if !errTrap && w.r.IntN(3) == 0 {
+		sb.WriteString("f() {\n" + body + "}\nf\n")
+	} else {
+		sb.WriteString(body)
+	}
+	sb.WriteString("echo end $?\n")
+	return sb.String()
+}
+
 func (w *wgen) program() string {
+	if w.r.IntN(8) == 0 {
+		return w.compoundErr()
+	}
 	w.budget = 10 + w.r.IntN(25)
 	var sb strings.Builder
 	if w.r.IntN(3) == 0 {
